@@ -125,7 +125,7 @@ class CyclicCodeEncoder(SystematicLinearBlockCodeEncoder):
 
         # Extract the parity submatrix for systematic encoding
         k, n = self._dimension, self._length
-        parity_submatrix = generator_matrix[:, k:n] if information_set == "left" else generator_matrix[:, 0 : n - k]
+        parity_submatrix = generator_matrix[:, 0 : n - k]
         super().__init__(parity_submatrix=parity_submatrix, information_set=information_set, **kwargs)
 
         # Register additional buffers specific to cyclic codes
@@ -456,15 +456,10 @@ class CyclicCodeEncoder(SystematicLinearBlockCodeEncoder):
         """
         # For a systematic (n,k) code with generator matrix G = [I_k | P],
         # the check matrix is H = [P^T | I_(n-k)]
-        identity_part = torch.eye(self._redundancy, dtype=torch.float32, device=self.generator_matrix.device)
-
-        if self.information_set == "left":
-            # For 'left' information set, G = [I_k | P]
-            parity_part = self.generator_matrix[:, self._dimension :].T
-            # H = [P^T | I_m]
-            self._check_matrix = torch.cat([parity_part, identity_part], dim=1)
-        else:
-            # For 'right' information set, G = [P | I_k]
-            parity_part = self.generator_matrix[:, : self._redundancy].T
-            # H = [I_m | P^T]
-            self._check_matrix = torch.cat([identity_part, parity_part], dim=1)
+        # For a systematic code with information set K and parity set M,
+        # H has P^T in the columns indexed by K and I_m in the columns indexed by M
+        parity = self.parity_submatrix.to(torch.float32)
+        check = torch.zeros((self._redundancy, self._length), dtype=torch.float32, device=parity.device)
+        check[:, self.information_set] = parity.T
+        check[:, self.parity_set] = torch.eye(self._redundancy, dtype=torch.float32, device=parity.device)
+        self._check_matrix = check
